@@ -371,7 +371,7 @@ func (e *Engine) newExec(u *Unit) *Exec {
 	x := &Exec{eng: e, ar: ar, unit: u, pkg: u.Pkg, info: info, c: c,
 		layouts: map[string][]comp{}, siteCount: map[string]int{}, errIDs: map[string]int64{},
 		abstr: map[string]bool{}, assumes: map[string]bool{}, specDecls: map[string]*FuncDecl{},
-		arrRegions: map[*types.Var]*Region{}, usedContracts: map[string]*Contract{}, ghostTypes: map[string]types.Type{},
+		arrRegions: map[*types.Var]*Region{}, arrSnaps: map[*types.Var]*Region{},usedContracts: map[string]*Contract{}, ghostTypes: map[string]types.Type{},
 		coarse: c.Opts["coarse"] == "true", curProps: c.Props}
 	return x
 }
